@@ -45,7 +45,9 @@ def render_block_ff(b):
 
 
 def render_block_itp(b):
-    out = ["[ moleculetype ]", "%s %d" % (b["name"], b["nrexcl"])]
+    # the parameter macros the block's file comes with (GROMOS-style `#define gb_2 0.1230 1.6600e+07`); polyply hands bonded type names through
+    out = ["#define %s %s 1.6600e+07" % (m["name"], m["val"]) for m in (b.get("macros") or [])]
+    out += ["[ moleculetype ]", "%s %d" % (b["name"], b["nrexcl"])]
     if b.get("cite"):
         out += ["[ citation ]", " ".join(sorted(b["cite"]))]
     out.append("[ atoms ]")
@@ -60,6 +62,10 @@ def render_block_itp(b):
 
 
 def _prefix(o):
+    if o >= 300:          # 300 + k = k `<` ("a residue with a smaller residue id")
+        return "<" * (o - 300)
+    if o >= 200:          # 200 + k = k `>` ("a residue with a larger residue id")
+        return ">" * (o - 200)
     if o >= 100:          # 100 + k = k stars ("some other residue")
         return "*" * (o - 100)
     return "+" * o if o >= 0 else "-" * (-o)
